@@ -131,7 +131,7 @@ def d2_same_crop(ctx):
     fd = [s for s in walk_function(fi.node) if isinstance(s, ast.Assign) and loc_name(s.targets[0]) == "first"]
     ld = [s for s in walk_function(fi.node) if isinstance(s, ast.Assign) and loc_name(s.targets[0]) == "last"]
     if not fd or not ld:
-        raise AnchorMissing("convolve: first/last crop bounds not found")
+        return _same_crop_absolute(ctx, repo, fi, cfg)
     m = Poly.sym("m")
     for par, nsw in _parities("nsw").items():
         ev = Evaluator(env={"nsw": nsw}, facts=_facts(), resolve=lambda e: repo.resolve_expr(fi, e))
@@ -197,6 +197,83 @@ def d2_same_crop(ctx):
                   f"the un-padding slice keeps `{src(el[-1].upper)}` = {bound} samples but the transform has only ns_optim_fft({arg}) >= {arg} samples: when {arg} is itself a fast size "
                   f"(2^a 3^b) the buffer is shorter than the slice assumes, 'full' comes back one sample short and the end-relative 'same' crop [first:-last] drops the last sample",
                   key="unpad-fits")
+
+
+def _same_crop_absolute(ctx, repo, fi, cfg):
+    """'same' written with absolute bounds on the last axis, xw[..., lo:hi]: lo == (nsw - 1) // 2 and hi - lo == nsx for both parities of nsw;
+    'full' returns the first nsx + nsw samples; the buffer is long enough for both (ns_optim_fft(n) >= n)."""
+    du = DefUse(fi.node)
+    rets = [r for r in returns_of(fi.node) if r.value is not None]
+    by_mode = {}
+    for r in rets:
+        gs = []
+        for t, pol in cfg.guards(cfg.node_for(r)):
+            gs.append((src(t), pol))
+        mode = next((m_ for m_ in ("same", "full") if any(m_ in g and pol for g, pol in gs)), None)
+        if mode:
+            by_mode[mode] = r
+    if "same" not in by_mode:
+        raise AnchorMissing("convolve: return under mode == 'same' not found")
+
+    def last_axis_slice(r):
+        v = expand_name(du, r.value, r) if isinstance(r.value, ast.Name) else r.value
+        if not isinstance(v, ast.Subscript):
+            return None, None
+        sl = v.slice
+        el = sl.elts if isinstance(sl, ast.Tuple) else [sl]
+        return (el[-1] if isinstance(el[-1], ast.Slice) else None), v
+    ssl, sv = last_axis_slice(by_mode["same"])
+    if ssl is None or ssl.step is not None:
+        raise AnalysisError("convolve: 'same' does not return a slice of the last axis")
+    if isinstance(ssl.upper, ast.UnaryOp) and isinstance(ssl.upper.op, ast.USub):
+        raise AnalysisError("convolve: end-relative 'same' crop without first/last locals")
+    m = Poly.sym("m")
+    for par, nsw in _parities("nsw").items():
+        ev = Evaluator(env={"nsw": nsw}, facts=_facts(), resolve=lambda e: repo.resolve_expr(fi, e))
+        ev.hints = ("nonneg",)
+        sx = SymExec(ev, on_undecided="havoc")
+        for st in walk_function(fi.node):
+            if isinstance(st, ast.Assign) and isinstance(st.targets[0], ast.Name) and st.targets[0].id not in ("nsw", "nsx", "ns") \
+                    and not any(isinstance(n, (ast.Subscript, ast.Attribute)) for n in ast.walk(st.value)):
+                try:
+                    sx.step(st)
+                except Undecided:
+                    pass
+        try:
+            lo = ev.ev(ssl.lower) if ssl.lower is not None else Poly.const(0)
+            hi = ev.ev(ssl.upper)
+        except Undecided as e:
+            raise AnalysisError(f"convolve: 'same' bounds not evaluable: {e}")
+        want_first = m - Poly.const(1) if par == "even" else m
+        ctx.check(lo == want_first, fi, by_mode["same"], f"[{par}] lo={lo}", "the crop is centred like numpy's 'same' ((nsw-1)//2 leading samples dropped)",
+                  f"[{par} nsw] 'same' starts at {lo}, expected {want_first}: output is shifted", key=f"crop-first:{par}", name_free=True)
+        ctx.check(hi - lo == Poly.sym("nsx"), fi, by_mode["same"], f"[{par}] hi-lo={hi - lo}", "'same' has the length of x",
+                  f"[{par} nsw] 'same' keeps {hi - lo} samples, expected nsx", key=f"crop-sum:{par}", name_free=True)
+        # hi <= nsx + nsw  (the linear convolution ends there; beyond it the buffer holds padding)
+        slack = (Poly.sym("nsx") + nsw - hi)
+        okfit = all(c >= 0 for c in slack.t.values())
+        ctx.check(okfit, fi, by_mode["same"], f"[{par}] nsx + nsw - hi = {slack}", "the crop stays inside the linear convolution", f"[{par} nsw] the crop reaches {hi}, past nsx + nsw", key=f"crop-last:{par}")
+    if "full" in by_mode:
+        fsl, fv = last_axis_slice(by_mode["full"])
+        okf = fsl is not None and fsl.lower is None and fsl.upper is not None
+        if okf:
+            ev_s = Evaluator(facts=_facts())
+            _step_defs(SymExec(ev_s, on_undecided="havoc"), fi, ())
+            okf = ev_s.ev(fsl.upper) == Poly.sym("nsx") + Poly.sym("nsw")
+            ev = Evaluator(facts=_facts(), resolve=lambda e: repo.resolve_expr(fi, e))
+            sx0 = SymExec(ev, on_undecided="havoc")
+            _step_defs(sx0, fi, ("nsx", "nsw"))
+            bound = ev.ev(fsl.upper)
+            opt = [c for c in find(fi.node, ast.Call) if call_name(c) == "ns_optim_fft"]
+            if not opt:
+                raise AnalysisError("convolve: ns_optim_fft call not found")
+            arg = ev.ev(opt[0].args[0])
+            d = (arg - bound).const_value()
+            ctx.check(d is not None and d >= 0, fi, by_mode["full"], f"xw[..., :{bound}] of a transform of ns_optim_fft({arg}) samples",
+                      "the transform is at least as long as the slice assumes",
+                      f"'full' keeps {bound} samples but the transform has only ns_optim_fft({arg}) >= {arg} samples", key="unpad-fits")
+        ctx.check(okf, fi, by_mode["full"], by_mode["full"], "'full' returns the nsx + nsw samples of the linear convolution", "'full' does not return xw[..., :nsx + nsw]", key="unpad")
+    ctx.ok(fi, by_mode["same"], by_mode["same"], "'same' returns absolute bounds on the last axis", key="crop-use")
 
 
 def d3_filters(ctx):
@@ -286,10 +363,26 @@ def _arange_count(repo, fi, du, ar: ast.Call, ns):
     ev = _len_eval(repo, fi, ns)
     a = ar.args[0] if len(ar.args) >= 2 else ast.Constant(value=0)
     b = ar.args[1] if len(ar.args) >= 2 else ar.args[0]
-    if len(ar.args) > 2 or ar.keywords and any(k.arg == "step" for k in ar.keywords):
+    if len(ar.args) == 3 and const_value(ar.args[2]) == (True, -1) and not ar.keywords:
+        # arange(a, b, -1) holds a, a-1, .., b+1: the values of arange(b + 1, a + 1), in reverse order
+        a, b = (ast.BinOp(left=ar.args[1], op=ast.Add(), right=ast.Constant(value=1)), ast.BinOp(left=ar.args[0], op=ast.Add(), right=ast.Constant(value=1)))
+    elif len(ar.args) > 2 or ar.keywords and any(k.arg == "step" for k in ar.keywords):
         raise AnalysisError(f"{fi.qualname}: arange with a step")
 
     def resolve(e):
+        import copy as _copy
+
+        class _X(ast.NodeTransformer):
+            def visit_Name(self, node):
+                v = expand_name(du, node, ar)
+                if v is node or isinstance(v, ast.Subscript):
+                    return node
+                return self.visit(_copy.deepcopy(v))
+
+            def visit_Subscript(self, node):
+                return node        # a list cell (siz[axis]) is resolved as a whole below
+        if isinstance(e, ast.BinOp):
+            e = _X().visit(_copy.deepcopy(e))
         e = expand_name(du, e, ar)
         if isinstance(e, ast.Subscript) and loc_name(e.value) is not None and not isinstance(e.slice, ast.Constant):
             st = [s_ for s_ in walk_function(fi.node) if isinstance(s_, ast.Assign) and isinstance(s_.targets[0], ast.Subscript) and src(s_.targets[0]) == src(e)]
@@ -330,7 +423,9 @@ def d4_half_spectrum(ctx):
                   f"[{par} ns] freduce keeps {red} bins and fexpand mirrors {mirror} bins from bin {s1}: {red + mirror} != ns = {ns} or DC is mirrored", key=f"fexpand:{par}")
     cj = [c for c in find(fx.node, ast.Call) if call_name(c) == "conj"]
     fl = [c for c in find(fx.node, ast.Call) if call_name(c) in ("flip", "flipud")]
-    ctx.check(bool(cj) and bool(fl), fx, fx.node, "conj(flip(...))", "mirror is the reversed complex conjugate", "mirror is not conj(flip(.))", key="mirror")
+    reversed_take = len(ar_x.args) == 3 and const_value(ar_x.args[2]) == (True, -1)      # bins taken in descending order: already reversed
+    ctx.check(bool(cj) and (bool(fl) != reversed_take), fx, fx.node, "conj(flip(...))", "mirror is the reversed complex conjugate",
+              "mirror is not conj(flip(.))" if not reversed_take else "bins are taken in descending order AND flipped: the mirror is not reversed", key="mirror")
     # fscale two-sided: concatenate((fsc, -fsc[a:0:-1]))
     fsc = [s_ for s_ in walk_function(fs.node) if isinstance(s_, ast.Assign) and loc_name(s_.targets[0]) == "fsc"]
     if not fsc:
@@ -387,6 +482,8 @@ def d5_fscale(ctx):
     ctx.check(ok, fs, ar, ar, "k runs 0 .. floor(ns/2)", f"`{src(ar)}` is not arange(0, floor(ns/2)+1): {'; '.join(det)}", key="fscale-range")
     fo = repo.fn(MOD + ".ns_optim_fft")
     ss = [c for c in find(fo.node, ast.Call) if call_name(c) == "searchsorted"]
+    if not ss:
+        return _fast_size_enumeration(ctx, repo, fo)
     side = kwarg(ss[0], "side") if ss else None
     oks = bool(ss) and (side is None or const_value(side) == (True, "left"))
     ctx.check(oks, fo, ss[0] if ss else fo.node, ss[0] if ss else "searchsorted", "first table entry >= ns is returned (an exact 2^a3^b size maps to itself)",
@@ -402,6 +499,113 @@ def d5_fscale(ctx):
         ctx.check(srt, fo, fo.node, "np.unique(...)", "table is sorted ascending", "table is not sorted before the search", key="sorted")
     bases = sorted({const_value(b.left)[1] for b in find(fo.node, ast.BinOp) if isinstance(b.op, ast.Pow) and const_value(b.left)[0]})
     ctx.check(bases == [2, 3], fo, fo.node, f"bases {bases}", "sizes are 2^a 3^b", f"sizes are built from {bases}", key="bases")
+
+
+def _pow2ceil_of(e):
+    """X when `e` is 1 << (X - 1).bit_length() [max(X - 1, 0) allowed] - the smallest power of two >= X - else None"""
+    if isinstance(e, ast.BinOp) and isinstance(e.op, ast.LShift) and const_value(e.left) == (True, 1):
+        return _bitlen_arg(e.right)
+    return None
+
+
+def _bitlen_arg(e):
+    """X when `e` is (X - 1).bit_length() or max(X - 1, 0).bit_length()"""
+    if isinstance(e, ast.Call) and call_name(e) == "bit_length" and isinstance(e.func, ast.Attribute) and not e.args:
+        r = e.func.value
+        if isinstance(r, ast.Call) and call_name(r) == "max" and len(r.args) == 2:
+            r = r.args[0] if const_value(r.args[1]) == (True, 0) else (r.args[1] if const_value(r.args[0]) == (True, 0) else r)
+        if isinstance(r, ast.BinOp) and isinstance(r.op, ast.Sub) and const_value(r.right) == (True, 1):
+            return r.left
+    return None
+
+
+def _fast_size_enumeration(ctx, repo, fo):
+    """ns_optim_fft without a table: one candidate per power of three P - P times the smallest power of two reaching ceil(ns / P) - and the
+    minimum of the candidates.  The minimum over ALL 2^a 3^b >= ns is among them as soon as every P with P / 3 < ns is visited (a larger P has
+    P / 3 >= ns, itself a candidate and smaller)."""
+    loops = [s_ for s_ in fo.node.body if isinstance(s_, ast.While)]
+    if len(loops) != 1:
+        raise AnalysisError("ns_optim_fft: neither a sorted table with searchsorted nor a single enumeration loop")
+    lp = loops[0]
+    pre = fo.node.body[: fo.node.body.index(lp)]
+    # the power-of-three cursor: multiplied by 3 in the loop
+    cur = None
+    for s_ in lp.body:
+        if isinstance(s_, ast.AugAssign) and isinstance(s_.op, ast.Mult) and const_value(s_.value) == (True, 3) and isinstance(s_.target, ast.Name):
+            cur = s_.target.id
+        elif isinstance(s_, ast.Assign) and isinstance(s_.targets[0], ast.Name) and isinstance(s_.value, ast.BinOp) and isinstance(s_.value.op, ast.Mult) \
+                and {loc_name(s_.value.left), loc_name(s_.value.right)} >= {s_.targets[0].id} and (const_value(s_.value.left) == (True, 3) or const_value(s_.value.right) == (True, 3)):
+            cur = s_.targets[0].id
+    if cur is None:
+        raise AnalysisError("ns_optim_fft: enumeration loop without a cursor multiplied by 3")
+    init = [s_ for s_ in pre if isinstance(s_, ast.Assign) and loc_name(s_.targets[0]) == cur]
+    ok0 = bool(init) and const_value(init[-1].value) in ((True, 1), (True, 3))
+    ctx.check(ok0, fo, init[-1] if init else lp, init[-1] if init else cur, "the powers of three are visited from the start", f"`{cur}` does not start at 1 or 3", key="p3-start")
+    # accumulator: acc = min(acc, candidate)
+    acc = None
+    cand = None
+    for s_ in lp.body:
+        if isinstance(s_, ast.Assign) and isinstance(s_.targets[0], ast.Name) and isinstance(s_.value, ast.Call) and call_name(s_.value) == "min" and len(s_.value.args) == 2:
+            a0, a1 = s_.value.args
+            if loc_name(a0) == s_.targets[0].id:
+                acc, cand = s_.targets[0].id, a1
+            elif loc_name(a1) == s_.targets[0].id:
+                acc, cand = s_.targets[0].id, a0
+    if acc is None:
+        raise AnalysisError("ns_optim_fft: enumeration loop without `best = min(best, candidate)`")
+    duo = DefUse(fo.node)
+    cand = expand_name(duo, cand, lp.body[0]) if isinstance(cand, ast.Name) else cand
+    ev = Evaluator(facts=_facts())
+    ev.facts.int_syms |= {"ns", cur}
+    # candidate = cur << bitlen(ceil(ns / cur) - 1)   (or cur * pow2ceil(ceil(ns / cur)))
+    x = None
+    if isinstance(cand, ast.BinOp) and isinstance(cand.op, ast.LShift) and loc_name(cand.left) == cur:
+        x = _bitlen_arg(cand.right)
+    elif isinstance(cand, ast.BinOp) and isinstance(cand.op, ast.Mult):
+        for u, v in ((cand.left, cand.right), (cand.right, cand.left)):
+            if loc_name(u) == cur and _pow2ceil_of(v) is not None:
+                x = _pow2ceil_of(v)
+    if x is None:
+        raise AnalysisError(f"ns_optim_fft: candidate `{src(cand)[:70]}` is not <power of three> times the smallest power of two reaching the rest")
+    try:
+        xq = ev.ev(x)
+        want = ev.ev(ast.parse(f"-(-ns // {cur})", mode="eval").body)
+    except Undecided as e:
+        raise AnalysisError(f"ns_optim_fft: `{src(x)}` not evaluable: {e}")
+    ctx.check(xq == want, fo, lp, f"power of two reaches {xq}", "each power of three is completed by the smallest power of two that reaches ceil(ns / P)",
+              f"the power of two completing P reaches {xq}, not ceil(ns / P) = {want}", key="p2-rest")
+    # the accumulator starts from the pure power of two (P = 1)
+    a_init = [s_ for s_ in pre if isinstance(s_, ast.Assign) and loc_name(s_.targets[0]) == acc]
+    x0 = _pow2ceil_of(a_init[-1].value) if a_init else None
+    ok_acc = x0 is not None and loc_name(x0) == "ns" or (a_init and const_value(init[-1].value) == (True, 1) if init else False)
+    ctx.check(bool(ok_acc), fo, a_init[-1] if a_init else lp, a_init[-1] if a_init else acc, "the pure power of two is a candidate", f"`{acc}` does not start at the next power of two", key="p2-start")
+    # loop bound: every P with P / 3 < ns, i.e. P < 3 * ns
+    t = lp.test
+    okb = False
+    detail = src(t)
+    if isinstance(t, ast.Compare) and len(t.ops) == 1 and isinstance(t.ops[0], (ast.Lt, ast.LtE)):
+        try:
+            l, r = ev.ev(t.left), ev.ev(t.comparators[0])
+            P, N = Poly.sym(cur), Poly.sym("ns")
+            if l == P:
+                d = r - Poly.const(3) * N
+                c = d.const_value()
+                k = r.coeff("ns") if len(r.t) == 1 else None
+                okb = (c is not None and c >= 0) or (k is not None and k >= 3 and len(r.symbols()) == 1)
+                detail = f"{cur} {'<' if isinstance(t.ops[0], ast.Lt) else '<='} {r}"
+            else:
+                # P // 3 < ns
+                lq = ev.ev(ast.parse(f"{cur} // 3", mode="eval").body)
+                okb = l == lq and r == N
+        except Undecided:
+            okb = False
+    ctx.check(okb, fo, lp, f"while {src(t)}", "every power of three P with P / 3 < ns is visited: the smallest 2^a 3^b >= ns is among the candidates",
+              f"the loop stops at `{detail}`: the powers of three in [ns, 3 * ns) are never candidates, yet the first power of three >= ns needs no factor 2 and may be the "
+              "smallest fast size (ns in 3, 9, 25..27, 73..81, ...): a larger size is returned and the result is not the documented next 2^a 3^b",
+              key="p3-bound", name_free=True)
+    rets = [r_ for r_ in ast.walk(fo.node) if isinstance(r_, ast.Return) and r_.value is not None]
+    ctx.check(bool(rets) and all(loc_name(r_.value) == acc or (isinstance(r_.value, ast.Call) and call_name(r_.value) == "int" and loc_name(r_.value.args[0]) == acc) for r_ in rets),
+              fo, rets[0] if rets else fo.node, rets[0] if rets else "return", "the minimum over the candidates is returned", "something other than the minimum is returned", key="returns-min")
 
 
 def d6_purity(ctx):
